@@ -317,14 +317,38 @@ def correspondence(tier, seed, corpus=()):
 
 
 def search(tier, seed):
+    """failing-input search when a proof or stream broke: (1) real runs of the examples that beat PEPit's value,
+    (2) a real member of a class whose genuine samples violate a generated class constraint (then every bound for
+    that class is unsound: a real run of any method on that member is not covered by the relaxation)"""
     s = stream_examples("thorough" if tier == "thorough" else "quick", seed + 1)
     if s["problems"]:
         return s["problems"][0]
+    from . import members
+    rng = random.Random(seed + 909)
+    for name in CL.ALL_CLASSES:
+        for _ in range(60 if tier == "quick" else 600):
+            try:
+                r = members.check_class(name, rng, rng.randrange(10 ** 6))
+            except Exception:
+                continue
+            if r and "skipped" not in r:
+                return dict(found_in="class constraints exclude a real member (C03)", **r)
     return None
 
 
 def replay(payload):
     ex = payload.get("example")
+    if not ex and payload.get("cls"):
+        from . import members
+        if "case_seed" in payload and hasattr(members, "check_case"):
+            r = members.check_case(payload["cls"], payload["case_seed"])
+            return bool(r and "skipped" not in r)
+        rng = random.Random(1)
+        for _ in range(300):
+            r = members.check_class(payload["cls"], rng, rng.randrange(10 ** 6))
+            if r and "skipped" not in r:
+                return True
+        return False
     if not ex:
         return False
     path = os.path.join(REPO, "PEPit", "examples", ex)
